@@ -41,6 +41,28 @@ def _sweep(args):
     return out
 
 
+def pickle_probe(table):
+    """rules of a grammar that are NAMED like core rules, pickled in one process and unpickled in a fresh one in which that
+    grammar class has no rules yet (whether or not the library supports pickling rules): the core rules of the receiving
+    process must still be B.1.  Returns (outcome of the unpickling, [(rule, code points that differ)])."""
+    import json
+    import os
+    import subprocess
+    w = os.path.join(lib.VERIF, "harness", "workers", "w_pickle.py")
+    p1 = subprocess.run([lib.PY, w, "dump"], env=lib.child_env(), capture_output=True, text=True, timeout=300)
+    blob = p1.stdout.strip().splitlines()[-1] if p1.returncode == 0 and p1.stdout.strip() else ""
+    p2 = subprocess.run([lib.PY, w, "load"], input=blob + "\n", env=lib.child_env(), capture_output=True, text=True, timeout=300)
+    if p2.returncode != 0:
+        raise RuntimeError("pickle probe worker failed: " + p2.stderr[-800:])
+    res = json.loads(p2.stdout.strip().splitlines()[-1])
+    bad = []
+    for name, got in res["accepted"].items():
+        want = {c for a, b in table[name] for c in range(a, min(b, 0x24F) + 1)}
+        if set(got) != want:
+            bad.append((name, sorted(set(got) ^ want)[:10]))
+    return res["outcome"], bad
+
+
 def run(ctx):
     P = lib.import_repo()
     cc.proof_part(ctx)
@@ -79,6 +101,13 @@ def run(ctx):
             ctx.report("core rule %s%s accepts a different set than B.1: symmetric difference %s" % (name, " (from a fresh subclass)" if sub else "",
                        ["U+%04X" % c for c in diff[:10]]), {"kind": "core-set", "rule": name, "subclass": sub, "difference": diff[:100]},
                        key="coreset:%s:%s" % (name, diff[:3]))
+    pk_outcome, pk_bad = pickle_probe(table)
+    for name, diff in pk_bad[:2]:
+        rep += 1
+        found = True
+        ctx.report("after rules of another grammar named like core rules were unpickled in a fresh process (%s), core rule %s differs from B.1 on %s"
+                   % (pk_outcome, name, ["U+%04X" % c if c >= 0 else "exception at U+%04X" % (-c - 1) for c in diff]),
+                   {"kind": "core-pickle", "rule": name, "difference": diff, "unpickling": pk_outcome}, key="corepickle:" + name)
     # multi-character strings: all 16 rules, model = engine on the reference grammar
     alph = [" ", "\t", "\r", "\n", "a", "\x00"]
     maxlen = ctx.budget(4, 6)
@@ -121,13 +150,21 @@ def run(ctx):
                 "16 rules x all strings of length <= %d over {SP,HTAB,CR,LF,a,NUL} vs the engine model on the reference grammar; non-trivial = accepted code points "
                 "and strings with >= 2 ends" % maxlen,
         "samples": [{"rule": "HEXDIG", "accepted": sorted(accepted[("HEXDIG", False)])}, {"rule": exp[5][0], "source": exp[5][2], "outcome": exp[5][3]}],
-        "exhaustive": True, "codepoint_evaluations": nchars, "string_evaluations": len(exp),
+        "exhaustive": True, "codepoint_evaluations": nchars, "string_evaluations": len(exp), "pickle_probe": pk_outcome,
     })
     cc.conclude(ctx, 0, found)
 
 
 def replay(rp):
     P = lib.import_repo()
+    if rp["kind"] == "core-pickle":
+        table = {}
+        for part in lib.run_driver(["b1table"])[0].split(";"):
+            toks = part.split()
+            table[toks[0]] = [tuple(int(v) for v in t.split("-")) for t in toks[1:]]
+        outcome, bad = pickle_probe(table)
+        print(outcome, bad)
+        return 1 if bad else 0
     if rp["kind"] == "core-char" or rp["kind"] == "core-set":
         cps_ = [rp["codepoint"]] if "codepoint" in rp else rp["difference"][:5]
         table = {}
